@@ -433,6 +433,17 @@ func (c *Ctx) Eq(a, b *Term) *Term {
 			return c.And(conj...)
 		}
 	}
+	// (x | y) == 0  is  x == 0 and y == 0
+	if a.Op == OpBvOr && b.IsConst() && b.W <= 64 && b.Val == 0 {
+		conj := make([]*Term, len(a.Args))
+		for i, x := range a.Args {
+			conj[i] = c.Eq(x, b)
+		}
+		return c.And(conj...)
+	}
+	if b.Op == OpBvOr && a.IsConst() && a.W <= 64 && a.Val == 0 {
+		return c.Eq(b, a)
+	}
 	// ite(c, k1, k2) == k  with constants
 	if b.IsConst() && a.Op == OpIte && a.Args[1].IsConst() && a.Args[2].IsConst() {
 		return c.Ite(a.Args[0], c.Eq(a.Args[1], b), c.Eq(a.Args[2], b))
@@ -607,7 +618,7 @@ func (c *Ctx) Extract(t *Term, hi, lo int) *Term {
 		}
 		return c.BvNot(c.Extract(t.Args[0], hi, lo))
 	case OpIte:
-		if t.Args[1].IsConst() || t.Args[2].IsConst() || t.Args[1].Op == OpConcat || t.Args[2].Op == OpConcat {
+		if !c.NoSplit && (t.Args[1].IsConst() || t.Args[2].IsConst() || t.Args[1].Op == OpConcat || t.Args[2].Op == OpConcat) {
 			return c.Ite(t.Args[0], c.Extract(t.Args[1], hi, lo), c.Extract(t.Args[2], hi, lo))
 		}
 	case OpAdd, OpSub, OpMul:
